@@ -2,6 +2,8 @@ package props
 
 import (
 	"bytes"
+	"encoding/json"
+	"reflect"
 	stdxml "encoding/xml"
 	"fmt"
 	"io"
@@ -625,7 +627,8 @@ func c19keys(c *core.Ctx) {
 func C19(c *core.Ctx) {
 	c19keys(c)
 	c19valueErrors(c)
-	c.Rule = "generated schemas (every built-in leaf type, leaf-lists, containers, keyed lists, choices, nodes of an imported module's grouping incl. an identityref, a leaf added by augment into that grouping's container) × conforming trees whose strings cover markup, quotes, CDATA terminators, leading/trailing/inner white space, tab/CR/LF, non-ASCII × writers {WriteXMLDoc compact, WriteXMLDoc pretty, WriteXML (streaming XMLWtr), one XMLWtr reused for every document}: (i) output parsed by encoding/xml in strict mode as one root element and compared with the expected element tree (names, namespaces, text), (ii) output compared byte for byte with the Lean writer models (tree / stream / pretty), (iii) ReadXMLDoc + UpsertFrom into a fresh reference store compared with the original tree and with the Lean reader model, as written and after a sibling interleaving that keeps the order of same-named elements, with same-named elements of a foreign namespace inserted, and with all namespaces dropped, (iv) patch/xml EscapeText against the Lean escaper on the string pool and random strings; directed: a tree with two- and three-component keys and dotted / dashed node names under a namespace that needs escaping, through three writers, read back and every entry addressed by key; WriteXML = WriteXMLDoc = one well-formed element for seven start selections. non-trivial = tree with ≥1 list entry or nested container; distinct by (schema, tree, writer, variant); directed (c19valueErrors): a node that answers an identity the schema does not have for a leaf, a leaf-list element, a leaf in a container: both writers return an error"
+	c19foreignStart(c)
+	c.Rule = "generated schemas (every built-in leaf type, leaf-lists, containers, keyed lists, choices, nodes of an imported module's grouping incl. an identityref, a leaf added by augment into that grouping's container) × conforming trees whose strings cover markup, quotes, CDATA terminators, leading/trailing/inner white space, tab/CR/LF, non-ASCII × writers {WriteXMLDoc compact, WriteXMLDoc pretty, WriteXML (streaming XMLWtr), one XMLWtr reused for every document}: (i) output parsed by encoding/xml in strict mode as one root element and compared with the expected element tree (names, namespaces, text), (ii) output compared byte for byte with the Lean writer models (tree / stream / pretty), (iii) ReadXMLDoc + UpsertFrom into a fresh reference store compared with the original tree and with the Lean reader model, as written and after a sibling interleaving that keeps the order of same-named elements, with same-named elements of a foreign namespace inserted, and with all namespaces dropped, (iv) patch/xml EscapeText against the Lean escaper on the string pool and random strings; directed: a tree with two- and three-component keys and dotted / dashed node names under a namespace that needs escaping, through three writers, read back and every entry addressed by key; WriteXML = WriteXMLDoc = one well-formed element for seven start selections. non-trivial = tree with ≥1 list entry or nested container; distinct by (schema, tree, writer, variant); directed (c19foreignStart): a container that comes from a grouping of an imported module and is augmented by the importing module (leaf, container, leaf-list, a leaf in its list), written from four start selections by three writers: every element in the namespace of the module that defines it, and the document read back at the same place gives the subtree again; directed (c19valueErrors): a node that answers an identity the schema does not have for a leaf, a leaf-list element, a leaf in a container: both writers return an error"
 	c.Assumptions = append(c.Assumptions,
 		"encoding/xml (Strict) of the Go standard library is the XML 1.0 well-formedness oracle on the byte level; the Lean theorems are on the token level plus the character-data codec",
 		"strings are drawn from the characters a YANG string may hold (RFC 7950 §9.4), which are the characters XML 1.0 can carry",
@@ -846,4 +849,135 @@ func C19(c *core.Ctx) {
 			}
 		}
 	}
+}
+
+// the element a document starts with need not belong to the module the schema is named after: a container taken from a
+// grouping of an imported module keeps that module's namespace, what the importing module augments into it has the
+// importing module's - whatever selection the writer is started on
+func c19foreignStart(c *core.Ctx) {
+	files := map[string]string{
+		"c19-base": `module c19-base { namespace "urn:c19:base"; prefix b; grouping g { container top { leaf name { type string; } list item { key id; leaf id { type string; } } container sub { leaf z { type string; } } } } }`,
+		"c19-ext": `module c19-ext { namespace "urn:c19:ext"; prefix e; import c19-base { prefix b; } uses b:g; leaf own { type string; }
+  augment /top { leaf note { type string; } container more { leaf y { type string; } } leaf-list tags { type string; } }
+  augment /top/item { leaf extra { type string; } }
+  augment /top/sub { leaf w { type string; } } }`,
+	}
+	nsOf := map[string]string{"c19-ext": "urn:c19:ext", "top": "urn:c19:base", "name": "urn:c19:base", "item": "urn:c19:base", "id": "urn:c19:base", "sub": "urn:c19:base", "z": "urn:c19:base",
+		"own": "urn:c19:ext", "note": "urn:c19:ext", "more": "urn:c19:ext", "y": "urn:c19:ext", "tags": "urn:c19:ext", "extra": "urn:c19:ext", "w": "urn:c19:ext"}
+	m, err := parser.LoadModule(func(name, ext string) (io.Reader, error) {
+		if y, ok := files[name]; ok {
+			return strings.NewReader(y), nil
+		}
+		return nil, fmt.Errorf("no module %s", name)
+	}, "c19-ext")
+	if err != nil {
+		c.Violation(core.Replay{Kind: "harness", Summary: "c19foreignStart modules: " + err.Error(), NoInputFound: true})
+		return
+	}
+	data := `{"own":"o","top":{"name":"n","item":[{"id":"a","extra":"xa"},{"id":"b"}],"sub":{"z":"zz","w":"ww"},"note":"nt","more":{"y":"yy"},"tags":["t1","t2"]}}`
+	for _, start := range []string{"", "top", "top/item=a", "top/sub", "top/more"} {
+		for _, writer := range []string{"WriteXML", "WriteXMLDoc", "WriteXMLDoc-pretty"} {
+			c.Evaluations++
+			c.Count("foreign_start", writer)
+			c.Distinct("c19foreign " + start + writer)
+			problem, doc := "", ""
+			e := safeDo(func() error {
+				src, err := nodeutil.ReadJSON(data)
+				if err != nil {
+					return err
+				}
+				sel, err := node.NewBrowser(m, src).Root().Find(start)
+				if err != nil || sel == nil {
+					return fmt.Errorf("start selection: %v", err)
+				}
+				want, err := nodeutil.WriteJSON(sel)
+				if err != nil {
+					return err
+				}
+				switch writer {
+				case "WriteXML":
+					doc, err = nodeutil.WriteXML(sel)
+				case "WriteXMLDoc":
+					doc, err = nodeutil.WriteXMLDoc(sel, false)
+				default:
+					doc, err = nodeutil.WriteXMLDoc(sel, true)
+				}
+				if err != nil {
+					return fmt.Errorf("write: %v", err)
+				}
+				dec := stdxml.NewDecoder(strings.NewReader(doc))
+				dec.Strict = true
+				for {
+					tok, terr := dec.Token()
+					if terr == io.EOF {
+						break
+					}
+					if terr != nil {
+						return fmt.Errorf("not well-formed: %v", terr)
+					}
+					if se, ok := tok.(stdxml.StartElement); ok {
+						if ns, known := nsOf[se.Name.Local]; !known || ns != se.Name.Space {
+							problem = fmt.Sprintf("element %s is in the namespace %q, the module that defines it has %q", se.Name.Local, se.Name.Space, nsOf[se.Name.Local])
+							return nil
+						}
+					}
+				}
+				// read back at the same place
+				rd, err := nodeutil.ReadXMLDoc(strings.NewReader(doc))
+				if err != nil {
+					return fmt.Errorf("read back: %v", err)
+				}
+				store := map[string]interface{}{}
+				if err := json.Unmarshal([]byte(data), &store); err != nil {
+					return err
+				}
+				// the subtree is emptied first, then filled from the document
+				var empty map[string]interface{}
+				switch start {
+				case "":
+					store = map[string]interface{}{}
+				case "top":
+					store["top"] = map[string]interface{}{}
+				case "top/item=a":
+					empty = map[string]interface{}{"id": "a"}
+					store["top"].(map[string]interface{})["item"] = []interface{}{empty, map[string]interface{}{"id": "b"}}
+				case "top/sub":
+					store["top"].(map[string]interface{})["sub"] = map[string]interface{}{}
+				case "top/more":
+					store["top"].(map[string]interface{})["more"] = map[string]interface{}{}
+				}
+				tsel, err := node.NewBrowser(m, nodeutil.ReflectChild(store)).Root().Find(start)
+				if err != nil || tsel == nil {
+					return fmt.Errorf("target selection: %v", err)
+				}
+				if err := tsel.UpsertFrom(rd); err != nil {
+					return fmt.Errorf("upsert of the document read back: %v", err)
+				}
+				tsel2, _ := node.NewBrowser(m, nodeutil.ReflectChild(store)).Root().Find(start)
+				got, err := nodeutil.WriteJSON(tsel2)
+				if err != nil {
+					return err
+				}
+				if !c19sameJSON(got, want) {
+					problem = fmt.Sprintf("the document read back holds %s, the tree written holds %s", short(got), short(want))
+				}
+				return nil
+			})
+			if e != nil {
+				problem = e.Error()
+			}
+			if problem != "" {
+				c.Violation(core.Replay{Kind: "property-failure", Class: "foreign-start-" + writer, Summary: fmt.Sprintf("%s started at %q of a container of an imported grouping augmented by the importing module: %s; document %s", writer, start, problem, short(doc)),
+					Input: map[string]interface{}{"yang": files, "data": data, "start": start, "writer": writer}, Impl: doc})
+			}
+		}
+	}
+}
+
+func c19sameJSON(a, b string) bool {
+	var x, y interface{}
+	if json.Unmarshal([]byte(a), &x) != nil || json.Unmarshal([]byte(b), &y) != nil {
+		return false
+	}
+	return reflect.DeepEqual(x, y)
 }
